@@ -788,6 +788,12 @@ func (u *Unit) assignTok(st *State, lhs ast.Expr, v Val, tok token.Token) {
 			v.Closure = keep
 			if bv, boxed := st.ghost["&"+fmt.Sprint(o.Pos())]; boxed {
 				u.storeAt(st, "P$"+typeKey(o.Type()), o.Type(), bv.S, v)
+			} else if u.eng.addrTaken(u.pkg, o) && !isStructVal(o.Type()) && !isArrayT(o.Type()) && v.Kind == KScalar && v.Closure == nil {
+				// a local whose address is taken somewhere in its function lives in a cell from its first assignment on,
+				// so that every path agrees on where the value is
+				r := u.alloc(st, "addr."+id.Name)
+				u.storeAt(st, "P$"+typeKey(o.Type()), o.Type(), r, v)
+				st.ghost["&"+fmt.Sprint(o.Pos())] = intVal(r)
 			}
 			st.vars[o] = v
 			return
